@@ -167,6 +167,7 @@ func (view *View) group(ctx context.Context, scope *ReferenceScope, items []pars
 			} else {
 				groups[key] = make([]int, 0, int(math.Min(float64(view.RecordLen()/18), 1000)))
 				groups[key] = append(groups[key], i)
+				verifPointN("group.discover", thIdx)
 				mtx.Lock()
 				if _, ok := groupKeyCnt[key]; !ok {
 					groupKeyCnt[key] = 0
